@@ -88,6 +88,9 @@ pub struct VolCfg {
     /// status byte to poke before the first mount (dirty / io-error bits)
     pub status: u8,
     pub label: bool,
+    /// C20: pre-mark the last k clusters of the volume as unusable (bad) so that 'last clusters taken' is reachable
+    #[serde(default)]
+    pub tail_taken: u8,
 }
 
 #[derive(Clone, Debug, Default, Serialize, Deserialize)]
